@@ -398,6 +398,20 @@ class Ref:
                 for ch in o: out = out + (ch if decide(c_isalnum(chars_of(ch)[0])) else '_')
                 return out
             if name == 'replace': A(2, 'str'); return o.replace(args[0], args[1])
+            if name == 'splitlines':
+                # str.yml: \n, \r and \r\n are newlines; no empty last element; '' -> []
+                A(0); out = []; cur = ''; cs = chars_of(o); i = 0
+                while i < len(cs):
+                    if decide(ceq(cs[i], 13)):
+                        out.append(cur); cur = ''
+                        if i + 1 < len(cs) and decide(ceq(cs[i + 1], 10)): i += 1
+                    elif decide(ceq(cs[i], 10)):
+                        out.append(cur); cur = ''
+                    else:
+                        cur = cur + mkstr([cs[i]])
+                    i += 1
+                if len(cur): out.append(cur)
+                return out
             if name == 'substring':
                 if len(args) > 2 or any(tname(a) != 'int' for a in args): raise RefError('substring(int, int)')
                 a = [concretize_int(x) if is_sym(x) else x for x in args]
@@ -433,9 +447,40 @@ class Ref:
                     if decide(bt_any(args[0] == k)): return clone(o[k])
                 if len(args) == 2: return clone(args[1])
                 raise RefError('index out of bounds')
+            if name == 'flatten':
+                A(0)
+                def flat(lst):
+                    out = []
+                    for y in lst:
+                        if tname(y) == 'list': out = out + flat(y)
+                        else: out.append(y)
+                    return out
+                return flat(o)
+            if name == 'slice':
+                # array.yml: start, stop (both or none), kwarg step != 0; negative indices count from the back; defaults depend on the sign of step
+                if len(args) not in (0, 2) or any(tname(a) != 'int' for a in args): raise RefError('slice(start, stop) or slice()')
+                step = kw.get('step', 1)
+                if tname(step) != 'int': raise RefError('step must be an integer')
+                step = concretize_int(step) if is_sym(step) else step
+                if step == 0: raise RefError('step cannot be zero')
+                n = len(o)
+                def norm(i, lo, hi):
+                    i = concretize_int(i) if is_sym(i) else i
+                    if i < 0: i += n
+                    return max(lo, min(hi, i))
+                if step > 0:
+                    a_, b_ = (norm(args[0], 0, n), norm(args[1], 0, n)) if args else (0, n)
+                    idx = []; i = a_
+                    while i < b_: idx.append(i); i += step
+                else:
+                    a_, b_ = (norm(args[0], -1, n - 1), norm(args[1], -1, n - 1)) if args else (n - 1, -1)
+                    idx = []; i = a_
+                    while i > b_: idx.append(i); i += step
+                return [clone(o[i]) for i in idx]
         if t == 'dict':
             if name == 'has_key': A(1, 'str'); return sym_or(*[args[0] == k for k in o]) if o else False
             if name == 'keys': A(0); return sorted(o)
+            if name == 'values': A(0); return [clone(o[k]) for k in sorted(o)]
             if name == 'get':
                 if not (1 <= len(args) <= 2) or tname(args[0]) != 'str': raise RefError('get(key[, fallback])')
                 for k in o:
@@ -739,8 +784,8 @@ def ob_unary_types():
 
 def ob_arrays():
     def h():
-        P = {'I0': sym_int('I0', -4, 4), 'I1': sym_int('I1'), 'I2': sym_int('I2'), 'S0': sym_str(1, 'S0', alphabet='ab')}
-        k = choose(9, 'prog')
+        P = {'I0': sym_int('I0', -4, 4), 'I1': sym_int('I1'), 'I2': sym_int('I2'), 'S0': sym_str(1, 'S0', alphabet='ab'), 'J0': sym_int('J0', -5, 5), 'J1': sym_int('J1', -2, 2)}
+        k = choose(12, 'prog')
         i0, i1, i2, s0 = ('var', 'I0'), ('var', 'I1'), ('var', 'I2'), ('var', 'S0')
         arr = ('arr', [i1, i2, s0])
         progs = [
@@ -753,6 +798,9 @@ def ob_arrays():
             [('assign', 'a', ('arr', [i1, ('arr', [i2, s0])])), ('assign', 'x', ('meth', ('var', 'a'), 'contains', [i0], {})), ('assign', 'y', ('meth', ('var', 'a'), 'contains', [s0], {}))],
             [('assign', 'a', arr), ('assign', 'b', ('bin', '+', ('var', 'a'), ('arr', [i0]))), ('assign', 'c', ('bin', '==', ('var', 'a'), ('var', 'b'))), ('assign', 'd', ('bin', '==', ('var', 'a'), arr))],
             [('assign', 'a', ('arr', [])), ('assign', 'x', ('idx', ('var', 'a'), i0))],
+            [('assign', 'a', ('arr', [i1, ('arr', [i2, ('arr', [s0, ('arr', [])])]), i0])), ('assign', 'x', ('meth', ('var', 'a'), 'flatten', [], {})), ('assign', 'n', ('meth', ('var', 'a'), 'length', [], {}))],
+            [('assign', 'a', ('arr', [i1, i2, s0, ('num', 7)])), ('assign', 'x', ('meth', ('var', 'a'), 'slice', [i0, ('var', 'J0')], {'step': ('var', 'J1')}))],
+            [('assign', 'a', ('arr', [i1, i2, s0])), ('assign', 'x', ('meth', ('var', 'a'), 'slice', [], {'step': ('var', 'J1')})), ('assign', 'y', ('meth', ('var', 'a'), 'slice', [i0], {}))],
         ]
         differential(progs[k], P)
     return h
@@ -761,10 +809,11 @@ def ob_arrays():
 def ob_dicts():
     def h():
         P = {'I0': sym_int('I0'), 'I1': sym_int('I1'), 'S0': sym_str(1, 'S0', alphabet='ab')}
-        k = choose(8, 'prog')
+        k = choose(9, 'prog')
         i0, i1, s0 = ('var', 'I0'), ('var', 'I1'), ('var', 'S0')
         d = ('dict', [(('str', 'b'), i0), (('str', 'a'), i1)])
         progs = [
+            [('assign', 'd', ('dict', [(('str', 'b'), i0), (('str', 'c'), s0), (('str', 'a'), i1)])), ('assign', 'v', ('meth', ('var', 'd'), 'values', [], {}))],
             [('assign', 'd', d), ('assign', 'x', ('idx', ('var', 'd'), s0))],
             [('assign', 'd', d), ('assign', 'k', ('meth', ('var', 'd'), 'keys', [], {}))],
             [('assign', 'd', d), ('assign', 'x', ('meth', ('var', 'd'), 'get', [s0, ('num', 7)], {})), ('assign', 'h', ('meth', ('var', 'd'), 'has_key', [s0], {}))],
@@ -781,8 +830,9 @@ def ob_dicts():
 
 def ob_strings():
     def h():
-        P = {'S0': sym_str(choose(3, 'l0'), 'S0', alphabet='aB _'), 'S1': sym_str(1, 'S1', alphabet='aB _'), 'I0': sym_int('I0', -3, 3), 'I1': sym_int('I1', -3, 3)}
-        k = choose(14, 'prog')
+        P = {'S0': sym_str(choose(3, 'l0'), 'S0', alphabet='aB _'), 'S1': sym_str(1, 'S1', alphabet='aB _'), 'I0': sym_int('I0', -3, 3), 'I1': sym_int('I1', -3, 3),
+             'L0': sym_str(choose(4, 'll'), 'L0', alphabet='a\n\r\x0c')}
+        k = choose(15, 'prog')
         s0, s1, i0, i1 = ('var', 'S0'), ('var', 'S1'), ('var', 'I0'), ('var', 'I1')
         progs = [
             [('assign', 'x', ('bin', '+', s0, s1)), ('assign', 'y', ('bin', '==', s0, s1))],
@@ -799,6 +849,7 @@ def ob_strings():
             [('assign', 'x', ('fstr', 'p@S0@q@I0@'))],
             [('assign', 'x', ('meth', s0, 'substring', [i0], {})), ('assign', 'y', ('meth', s0, 'substring', [i0, i1], {})), ('assign', 'z', ('meth', ('str', 'foobar'), 'substring', [i0, i1], {}))],
             [('assign', 'x', ('bin', '/', s0, s1))],
+            [('assign', 'x', ('meth', ('var', 'L0'), 'splitlines', [], {}))],
         ]
         differential(progs[k], P)
     return h
